@@ -66,6 +66,13 @@ impl ContentPack {
 
     fn get_cluster(&self, cluster_index: ClusterIdx) -> Result<Arc<Cluster>> {
         let mut cache = self.cluster_cache.lock().unwrap();
+        #[cfg(jubako_verif)]
+        crate::verif::emit(
+            "CacheGet",
+            self as *const Self as u64,
+            cluster_index.into_u64(),
+            ((cache.contains(&cluster_index) as u64) << 32) | cache.len() as u64,
+        );
         let cached = cache.try_get_or_insert(cluster_index, || self._get_cluster(cluster_index))?;
         Ok(cached.clone())
     }
